@@ -1855,6 +1855,14 @@ class AV:
             v = ("call", show(tgt), args, kwargs_t)
             self.call_log.append((fr.func, n, v))
             return v
+        # NamedTuple._asdict on a constructor value
+        if isinstance(fn, ast.Attribute) and fn.attr == "_asdict" and not args and not kwargs:
+            recv = self._ev(fn.value, fr)
+            fields, vals = self._nt_fields_of_ctor(recv)
+            if fields is not None:
+                vals = dict(vals)
+                if all(f_ in vals for f_ in fields):
+                    return ("dict", tuple((C(f_), vals[f_]) for f_ in fields))
         # NamedTuple._replace on a constructor value
         if isinstance(fn, ast.Attribute) and fn.attr == "_replace" and not args:
             recv = self._ev(fn.value, fr)
